@@ -38,6 +38,7 @@ var (
 	localInvalid = vlib.FragmentIdx(func(f vlib.Fragment) bool {
 		return !f.Lax && (f.Class == "range" || f.Class == "length" || f.Class == "pattern" || f.Class == "min-elements" || f.Class == "max-elements")
 	})
+	mandInvalid = vlib.FragmentIdx(func(f vlib.Fragment) bool { return f.Class == "mandatory" })
 )
 
 func genFrags(t *rapid.T, label string) []int {
@@ -78,7 +79,16 @@ func gen(t *rapid.T) *Case {
 			nf := rapid.IntRange(1, 3).Draw(t, "replace-n")
 			for k := 0; k < nf; k++ {
 				if rapid.IntRange(0, 2).Draw(t, "replace-bad") == 0 {
-					r.Replace = append(r.Replace, rapid.SampledFrom(localInvalid).Draw(t, "replace-inv"))
+					if rapid.Bool().Draw(t, "replace-mandatory") {
+						// a missing mandatory leaf is reported for another owner than the replace intent's values; together
+						// with a warning (dangling leafref that does not require an instance) the findings spread over owners
+						r.Replace = append(r.Replace, rapid.SampledFrom(mandInvalid).Draw(t, "replace-mand"))
+						if rapid.Bool().Draw(t, "replace-warn") {
+							r.Replace = append(r.Replace, vlib.FragmentIndex("ref-soft-dangling"))
+						}
+					} else {
+						r.Replace = append(r.Replace, rapid.SampledFrom(localInvalid).Draw(t, "replace-inv"))
+					}
 				} else {
 					r.Replace = append(r.Replace, rapid.SampledFrom(validFrags).Draw(t, "replace-val"))
 				}
@@ -92,7 +102,7 @@ func gen(t *rapid.T) *Case {
 
 var prop = vlib.Prop[*Case]{
 	ID: "C03",
-	Rule: "case = sequence of 1..6 TransactionSet requests over plain + constraint subtree: 1..3 intents built from valid fragments and fragments invalid in exactly one class (range, length, pattern, mandatory, leafref, must, min/max-elements, type admission), optional replace intent (valid or locally invalid), dry run or not; accepted real requests are confirmed and form the state for the next request; " +
+	Rule: "case = sequence of 1..6 TransactionSet requests over plain + constraint subtree: 1..3 intents built from valid fragments and fragments invalid in exactly one class (range, length, pattern, mandatory, leafref, must, min/max-elements, type admission), optional replace intent (valid, locally invalid, or lacking a mandatory leaf, possibly together with a warning-only finding), dry run or not; accepted real requests are confirmed and form the state for the next request; " +
 		"oracle = (1) a request that returns an error, reports intent errors or is a dry run causes zero device Set calls, zero cache Modify calls and leaves full INTENDED and CONFIG dumps byte-identical; (2) a replace intent whose content the code itself rejects as a normal intent on an empty datastore must not come back as success; (3) an accepted dry run is followed by the identical real request and its reported updates/deletes must equal what the device receives and what the real response reports; " +
 		"non-trivial = a request was rejected for a constraint class, or a dry run had a non-empty diff; distinct = distinct case JSON",
 	Gen:  gen,
@@ -120,6 +130,9 @@ func takeSnap(ctx context.Context, h *vlib.HistEnv) snap {
 	}
 	return snap{intended: i, config: c, devCalls: h.Dev.Calls()}
 }
+
+// the leaf a "mandatory" fragment lacks
+var mandatorySupplier = map[string]string{"mand-mc": "/cons/mc/musthave", "mand-svc": "/cons/svc[name=c]/kind"}
 
 func replaceRequest(frs []int) (*sdcpb.TransactionIntent, vlib.Conf) {
 	if frs == nil {
@@ -216,6 +229,16 @@ func Exec(c *Case) (nontrivial bool, labels []string, fail *vlib.Failure) {
 		repInvalid := false
 		if repReq != nil {
 			repInvalid = rejectedAlone(ctx, repContent)
+			// a missing mandatory leaf is not a property of the replace content alone: a stored intent of another
+			// owner may supply it, then the verdict of the empty datastore says nothing about this state
+			for _, fi := range rq.Replace {
+				if need := mandatorySupplier[vlib.Fragments[fi].Name]; need != "" && repInvalid {
+					if _, supplied := h.Model.Merge()[need]; supplied {
+						repInvalid = false
+						lab["replace-mandatory-supplied-by-stored-intent"] = true
+					}
+				}
+			}
 			if repInvalid {
 				lab["replace-invalid"] = true
 			} else {
